@@ -13,6 +13,8 @@ VERIF = os.path.dirname(os.path.dirname(os.path.abspath(__file__)))
 SEMANTIC = [
     ("postcondition not satisfied", "postcondition"),
     ("precondition not satisfied", "precondition"),
+    ("precondition not met", "precondition"),
+    ("requires not satisfied", "precondition"),
     ("invariant not satisfied at end of loop body", "invariant_preserved"),
     ("invariant not satisfied before loop", "invariant_established"),
     ("possible arithmetic underflow/overflow", "overflow"),
